@@ -450,6 +450,8 @@ class ObjectStream(Generic[T]):
         # Run it
         from func_adl.ast.meta_data import remove_empty_metadata
 
-        return await exe(remove_empty_metadata(self._q_ast), title)
+        # The executor gets a copy: back ends run ast transformers over what they are handed,
+        # and those rewrite nodes in place - the nodes of this stream and of its relatives.
+        return await exe(copy_ast(remove_empty_metadata(self._q_ast)), title)
 
     value = make_sync(value_async)
